@@ -219,6 +219,8 @@ def run(chk):
     drv = Driver()
     rng = chk.rng
     L = 6 if chk.tier == 'quick' else 20
+    from harness.pure import permanent
+    permanent.tie(chk, drv, 400 if chk.tier == 'quick' else 6000)      # what a failed call leaves in the permanent cache entries is gone after the reset
     import glob
     import json as _json
     import os as _os
